@@ -274,6 +274,110 @@ theorem uses_sequential_iff (days avail minDays : Nat) :
 theorem partition_is_exact_cover (s e : Int) (k : Nat) (h : s ≤ e) : C14.CoversFrom e s (partition s e k) :=
   C14.partition_cover s e k h
 
+
+/-! ### end to end: the map the parallel function returns is the map the sequential one returns -/
+
+section EndToEnd
+variable {α : Type} [Add α] [Sub α] [Mul α] [Div α] [Neg α] [OfScientific α] [Sc α]
+
+/-- what one worker computes: the sequential range function on its block
+    (`prayer_times_dt_rng(params, location, block)` inside the spawned closure) -/
+def workerResult (p : Params α) (loc : Location α) (blk : Int × Int) : List (Int × Except Panic DayTimes) :=
+  C14.rngModel p loc blk.1 blk.2
+
+/-- the collector's map after a completed schedule: the blocks' results appended in arrival order -/
+def collected (p : Params α) (loc : Location α) (merged : List (Int × Int)) : List (Int × Except Panic DayTimes) :=
+  merged.flatMap (workerResult p loc)
+
+theorem lookup_graph {β : Type} (f : Int → β) (d : Int) : ∀ l : List Int,
+    (l.map fun x => (x, f x)).lookup d = if d ∈ l then some (f d) else none := by
+  intro l
+  induction l with
+  | nil => simp
+  | cons a l ih =>
+    simp only [List.map_cons, List.lookup_cons, List.mem_cons]
+    by_cases h : d = a
+    · subst h; simp
+    · have : (d == a) = false := by simpa using h
+      simp [this, ih, h]
+
+/-- looking a date up in the sequential result: the single-date result iff the date is in range -/
+theorem lookup_rng (p : Params α) (loc : Location α) (s e d : Int) :
+    (C14.rngModel p loc s e).lookup d = if s ≤ d ∧ d ≤ e then some (prayerTimesDt p loc d none) else none := by
+  unfold C14.rngModel
+  rw [lookup_graph (fun rd => prayerTimesDt p loc rd none) d (rangeDates s e)]
+  simp only [C14.rangeDates_mem]
+
+/-- looking a date up in the appended block results: found iff some block contains the date -/
+theorem lookup_collected (p : Params α) (loc : Location α) (d : Int) : ∀ l : List (Int × Int),
+    (collected p loc l).lookup d =
+      if ∃ b ∈ l, b.1 ≤ d ∧ d ≤ b.2 then some (prayerTimesDt p loc d none) else none := by
+  intro l
+  induction l with
+  | nil => simp [collected]
+  | cons b l ih =>
+    have ih' : (List.flatMap (workerResult p loc) l).lookup d =
+        if ∃ b ∈ l, b.1 ≤ d ∧ d ≤ b.2 then some (prayerTimesDt p loc d none) else none := ih
+    simp only [collected, List.flatMap_cons, List.lookup_append, workerResult, lookup_rng, ih',
+      List.mem_cons, exists_eq_or_imp]
+    by_cases h1 : b.1 ≤ d ∧ d ≤ b.2
+    · simp [h1]
+    · by_cases h2 : ∃ b ∈ l, b.1 ≤ d ∧ d ≤ b.2
+      · rw [if_neg h1, if_pos h2, if_pos (Or.inr h2)]; rfl
+      · rw [if_neg h1, if_neg h2, if_neg (by rintro (h | h); exact h1 h; exact h2 h)]; rfl
+
+/-- an exact cover contains a date in one of its blocks iff the date is in the range -/
+theorem cover_mem (e d : Int) : ∀ (l : List (Int × Int)) (s : Int), C14.CoversFrom e s l →
+    ((∃ b ∈ l, b.1 ≤ d ∧ d ≤ b.2) ↔ s ≤ d ∧ d ≤ e) := by
+  intro l
+  induction l with
+  | nil => intro s h; simp only [C14.CoversFrom] at h; simp; omega
+  | cons b l ih =>
+    intro s h
+    obtain ⟨a, b'⟩ := b
+    simp only [C14.CoversFrom] at h
+    obtain ⟨h1, h2, h3, h4⟩ := h
+    have := ih (b' + 1) h4
+    simp only [List.mem_cons, exists_eq_or_imp, this]
+    omega
+
+theorem partition_mem (s e d : Int) (k : Nat) :
+    (∃ b ∈ partition s e k, b.1 ≤ d ∧ d ≤ b.2) ↔ s ≤ d ∧ d ≤ e := by
+  by_cases hse : s ≤ e
+  · exact cover_mem e d _ s (C14.partition_cover s e k hse)
+  · by_cases hk : k < 2
+    · simp [partition, hk]
+    · have := C14.partition_empty s e k (by omega) (by omega)
+      rw [this]; simp; omega
+
+/-- **C15, end to end**: for every parameter set, location, range (also an empty one), worker
+    count k and EVERY schedule of the fan-in protocol that runs to the end of the collector's loop,
+    the collected map answers every date exactly as the sequential range function does -
+    the single-date result for dates in the range, nothing for any other date. -/
+theorem parallel_eq_sequential (p : Params α) (loc : Location α) (s e : Int) (k : Nat)
+    (as : List BAct) (st : BState (Int × Int))
+    (h : bRun (bInit (partition s e k)) as = some st) (hd : st.done = true) (d : Int) :
+    (collected p loc st.merged).lookup d = (C14.rngModel p loc s e).lookup d := by
+  have hc := done_eq_seq (partition s e k) as st h hd
+  have hp : st.merged.Perm (partition s e k) := List.perm_iff_count.mpr hc
+  rw [lookup_collected, lookup_rng]
+  have hm : (∃ b ∈ st.merged, b.1 ≤ d ∧ d ≤ b.2) ↔ (∃ b ∈ partition s e k, b.1 ≤ d ∧ d ≤ b.2) := by
+    constructor <;> rintro ⟨b, hb, hbd⟩
+    · exact ⟨b, hp.mem_iff.mp hb, hbd⟩
+    · exact ⟨b, hp.mem_iff.mpr hb, hbd⟩
+  simp only [hm, partition_mem]
+
+/-- the collected map has one entry per date of the range: as many entries as the sequential map -/
+theorem collected_length (p : Params α) (loc : Location α) (s e : Int) (k : Nat)
+    (as : List BAct) (st : BState (Int × Int))
+    (h : bRun (bInit (partition s e k)) as = some st) (hd : st.done = true) :
+    (collected p loc st.merged).length = (collected p loc (partition s e k)).length := by
+  have hc := done_eq_seq (partition s e k) as st h hd
+  have hp : st.merged.Perm (partition s e k) := List.perm_iff_count.mpr hc
+  exact (hp.flatMap_right _).length_eq
+
+end EndToEnd
+
 -- non-vacuity: a complete schedule for two partitions that interleaves the collector with the workers
 example : (bRun (bInit [1, 2]) [.spawn, .send 0, .recv, .spawn, .dropTx, .send 0, .recv, .close]).map
     (fun s => (s.merged, s.done)) = some ([1, 2], true) := by decide
